@@ -346,6 +346,10 @@ let monitor (opsf : string) (obsf : string) (outf : string) =
              | (ORemove _ | ORemoveSubtree _), 22 -> "C04"
              | _, _ -> "C03") in
            report prop (Printf.sprintf "step effect differs from the documented one (clause %d) after %s" ci cmd);
+           (* "remove deletes exactly x ... and nothing else changes": a bystander's payload is part of "nothing else" *)
+           (match o with
+            | (ORemove _ | ORemoveSubtree _) when ci = 41 -> report "C04" (Printf.sprintf "a removal changed the payload of a node it did not remove (clause %d) after %s" ci cmd)
+            | _ -> ());
            if dead_arg && (ci = 10 || ci = 11 || ci = 12) then report "C05" (Printf.sprintf "insert with a removed node mishandled (clause %d)" ci)) failed
      | Some (cmd, None, _, a0) ->
          (match cmd with
